@@ -13,7 +13,7 @@ import (
 func newUnit(l *loader, mode string, stateTypes map[string]string) *unit {
 	return &unit{l: l, mode: mode, stateTypes: stateTypes,
 		funcs: map[*types.Func]*fn{}, byDecl: map[*types.Func]*ast.FuncDecl{}, declPkg: map[*types.Func]*pkgInfo{},
-		inprog: map[*types.Func]bool{}, tables: map[types.Object]*table{}, fields: map[string]fieldInfo{}}
+		inprog: map[*types.Func]bool{}, tables: map[types.Object]*table{}, fields: map[string]fieldInfo{}, ghost: map[string]bool{}}
 }
 
 func (u *unit) addPkg(p *pkgInfo) {
@@ -194,7 +194,7 @@ func (u *unit) need(fo *types.Func, pos token.Pos) *fn {
 	p := u.declPkg[fo]
 	f := &fn{obj: fo, decl: decl, pkg: p, coq: fo.Name()}
 	sig := fo.Type().(*types.Signature)
-	c := &fctx{u: u, f: f, info: p.info, names: map[types.Object]string{}, used: map[string]bool{"s": true}, cbVar: map[types.Object]string{}}
+	c := &fctx{u: u, f: f, info: p.info, names: map[types.Object]string{}, used: map[string]bool{"s": true}, cbVar: map[types.Object]string{}, ghostDef: map[string]bool{}}
 	var params []string
 	if r := sig.Recv(); r != nil {
 		if pre, ok := u.stateTypeOf(r.Type()); ok {
